@@ -19,7 +19,8 @@ EXTENDS Naturals, TLC
 
 NameClass == {"local", "hostglobal", "builtin", "shadow_lg", "shadow_gb", "agentonly", "undefined"}
 Site      == {"condition", "watch", "logfield", "metric", "label"}
-Wrap      == {"plain", "raises_exception", "raises_baseexception",
+Wrap      == {"plain", "padded",         \* padded: the same text with blanks/tabs in front (valid for eval: same outcome)
+              "raises_exception", "raises_baseexception",
               "syntax_error",                        \* text that is not an expression at all (`x =` for `x ==`)
               "raises_true_text", "raises_t_text"}   \* failures whose message reads like a truth value ("true") or merely
                                                      \* begins like one ("tuple index out of range"): still failures
@@ -38,13 +39,14 @@ Resolve(nc) ==
       [] nc = "agentonly"  -> "ERR"      \* names of the agent's own modules are not in scope
       [] nc = "undefined"  -> "ERR"
 
+Healthy == {"plain", "padded"}
 Outcome(c) ==
-    IF c.wrap # "plain" THEN "ERR" ELSE Resolve(c.nc)
+    IF c.wrap \notin Healthy THEN "ERR" ELSE Resolve(c.nc)
 
 (* what the site shows for an outcome *)
 Shown(c) ==
     LET o == Outcome(c) IN
-    CASE c.site = "condition" -> [fires |-> o # "ERR", src |-> o]
+    CASE c.site = "condition" -> [fires |-> o # "ERR", src |-> o]   \* gates EVERY action of the tracepoint (its metric too)
       [] c.site = "watch"     -> [fires |-> TRUE, src |-> o]      \* value from src, or an error result
       [] c.site = "logfield"  -> [fires |-> TRUE, src |-> o]      \* text of the value, or error text in place
       [] c.site = "metric"    -> [fires |-> TRUE, src |-> o]      \* numeric value, or 1
@@ -60,9 +62,9 @@ Next == UNCHANGED vars
 (* nothing of the agent's own is visible *)
 AgentInvisible == case.nc = "agentonly" => expected.src = "ERR"
 (* the paused frame's locals and its module's globals are visible, locals first *)
-FrameScope == /\ (case.wrap = "plain" /\ case.nc \in {"local", "shadow_lg"}) => expected.src = "L"
-              /\ (case.wrap = "plain" /\ case.nc \in {"hostglobal", "shadow_gb"}) => expected.src = "G"
-              /\ (case.wrap = "plain" /\ case.nc = "builtin") => expected.src = "B"
+FrameScope == /\ (case.wrap \in Healthy /\ case.nc \in {"local", "shadow_lg"}) => expected.src = "L"
+              /\ (case.wrap \in Healthy /\ case.nc \in {"hostglobal", "shadow_gb"}) => expected.src = "G"
+              /\ (case.wrap \in Healthy /\ case.nc = "builtin") => expected.src = "B"
 (* a failing condition rejects the hit; a failing expression elsewhere never suppresses the action *)
 FailureIsLocal == /\ (expected.src = "ERR" /\ case.site = "condition") => ~expected.fires
                   /\ case.site # "condition" => expected.fires
